@@ -59,7 +59,14 @@ pub struct Renderer {
     reset_sequence: String,
     is_tty: bool,
     last_print: Option<Instant>,
+    #[cfg(feature = "verif")]
+    verif_refresh: Option<VerifRefresh>,
 }
+
+/// Verification hook (feature `verif` only): replaces the elapsed-time test of `should_print`
+/// once a first frame has been printed.
+#[cfg(feature = "verif")]
+pub type VerifRefresh = Box<dyn Fn() -> bool + Send>;
 
 impl Renderer {
     pub fn new(
@@ -80,7 +87,18 @@ impl Renderer {
             reset_sequence: "".to_string(),
             last_print: None,
             update_interval,
+            #[cfg(feature = "verif")]
+            verif_refresh: None,
         }
+    }
+
+    /// Verification hook: force the result of the terminal probe and, optionally, make the
+    /// refresh decision deterministic.
+    #[cfg(feature = "verif")]
+    pub fn verif_force(mut self, is_tty: bool, refresh: Option<VerifRefresh>) -> Self {
+        self.is_tty = is_tty;
+        self.verif_refresh = refresh;
+        self
     }
 
     pub fn render(&mut self, row: &data::Row, last_row: bool) -> Result<(), Error> {
@@ -121,6 +139,10 @@ impl Renderer {
     pub fn should_print(&self) -> bool {
         if !self.is_tty {
             return false;
+        }
+        #[cfg(feature = "verif")]
+        if let (Some(refresh), Some(_)) = (&self.verif_refresh, self.last_print) {
+            return refresh();
         }
         self.last_print
             .map(|instant| instant.elapsed() > self.update_interval)
